@@ -1033,6 +1033,9 @@ class Interp(object):
             node = b.target
             if isinstance(node, ast.Constant) and isinstance(node.value, (int, float, complex, str)):
                 return self.ev_Constant(node, {}, None)
+            lit = _literal_value(node)
+            if lit is not None:
+                return lit
             if isinstance(node, ast.Dict):
                 try:
                     return ModTable(b.origin + "." + name, node, self)
@@ -1042,6 +1045,8 @@ class Interp(object):
         return unk("binding", name)
 
     def ext_value(self, dotted):
+        if dotted == "numpy.newaxis":
+            return None
         if dotted in EXT_CONST:
             return Rat.const(EXT_CONST[dotted])
         return ExtRef(dotted)
@@ -1079,6 +1084,9 @@ class Interp(object):
                 return ShapeOf(o)
             if a in ("dtype", "size", "ndim", "flat"):
                 return Rat.atom(Fn(a, (o,)))
+            at_ = o.single_atom()
+            if isinstance(at_, Fn) and at_.name.endswith("scipy.optimize.minimize") and a in ("x", "fun", "success", "nit"):
+                return Rat.atom(Fn("getitem", (o, a)))          # OptimizeResult: res.x is res['x']
             return BoundMethod(o, a)
         if isinstance(o, (list, tuple, dict, str, ShapeOf, ModTable)):
             return BoundMethod(o, a)
@@ -1451,6 +1459,20 @@ class Interp(object):
         return Rat.atom(Fn("?ext:" + dotted, tuple(args) + tuple(("kw:" + k, v) for k, v in sorted(kwargs.items()))))
 
 
+def _literal_value(node):
+    """module-level NAME = <number> | -<number> | tuple/list of such: the value, else None"""
+    if isinstance(node, ast.Constant) and isinstance(node.value, (int, float)) and not isinstance(node.value, bool):
+        return Rat.const(node.value)
+    if isinstance(node, ast.UnaryOp) and isinstance(node.op, ast.USub) and isinstance(node.operand, ast.Constant) \
+            and isinstance(node.operand.value, (int, float)):
+        return Rat.const(-node.operand.value)
+    if isinstance(node, (ast.Tuple, ast.List)) and node.elts:
+        vals = [_literal_value(x) for x in node.elts]
+        if all(v is not None for v in vals):
+            return tuple(vals)
+    return None
+
+
 def _load(t):
     t2 = ast.parse(norm_text(t), mode="eval").body
     return t2
@@ -1566,7 +1588,7 @@ class ModTable(object):
 BUILTINS = {"float", "int", "abs", "len", "range", "round", "str", "min", "max", "sum", "enumerate",
             "zip", "list", "tuple", "print", "isinstance", "complex", "bool", "dict", "sorted",
             "ValueError", "TypeError", "IndexError", "AttributeError", "ZeroDivisionError",
-            "Exception", "type", "map", "reversed", "any", "all", "divmod", "pow", "set"}
+            "Exception", "type", "map", "reversed", "any", "all", "divmod", "pow", "set", "slice", "iter", "next"}
 
 EXT_CONST = {"numpy.pi": math.pi, "math.pi": math.pi, "numpy.e": math.e, "math.e": math.e,
              "scipy.pi": math.pi}
@@ -1919,6 +1941,44 @@ def _outer(I, a, k, e, env, ctx):
     return NotImplemented
 
 
+@ext("builtins.slice")
+def _slice_obj(I, a, k, e, env, ctx):
+    if 1 <= len(a) <= 3 and not k:
+        lo, hi, st = (None, a[0], None) if len(a) == 1 else (a[0], a[1], a[2] if len(a) == 3 else None)
+        if st is None or (isinstance(st, Rat) and st.real_const() == 1):
+            st = None
+            if lo is None:
+                lo = Rat.const(0)
+        return ("slice", lo, hi, st)
+    return NotImplemented
+
+
+@ext("numpy.argwhere")
+def _argwhere(I, a, k, e, env, ctx):
+    # argwhere(c) is transpose(nonzero(c)) (NumPy documentation) = array(where(c)).T
+    if len(a) == 1 and isinstance(a[0], Rat):
+        return mk_T(Rat.atom(Fn("where1", (a[0],))))
+    if len(a) == 1 and isinstance(a[0], bool):
+        return mk_T(Rat.atom(Fn("where1", (a[0],))))
+    return NotImplemented
+
+
+@ext("numpy.full", "numpy.full_like")
+def _full(I, a, k, e, env, ctx):
+    v = a[1] if len(a) > 1 else k.get("fill_value")
+    if isinstance(v, Rat) and v.is_const():
+        I.alloc_log.append((ctx.finfo.fq, norm_text(e.func), a, k, e.lineno))
+        return v
+    return NotImplemented
+
+
+@ext("numpy.column_stack")
+def _column_stack(I, a, k, e, env, ctx):
+    if len(a) == 1 and isinstance(a[0], (tuple, list)):
+        return Rat.atom(Fn("column_stack", (tuple(a[0]),)))
+    return NotImplemented
+
+
 @ext("numpy.reshape")
 def _reshape_fn(I, a, k, e, env, ctx):
     if len(a) >= 2 and isinstance(a[0], Rat):
@@ -1972,10 +2032,18 @@ def _vdot(I, a, k, e, env, ctx):
     return NotImplemented
 
 
-@ext("numpy.diagonal", "numpy.diag")
+@ext("numpy.diagonal")
 def _diagonal(I, a, k, e, env, ctx):
     if len(a) == 1 and isinstance(a[0], Rat):
         return Rat.atom(Fn("diagonal", (a[0],)))
+    return NotImplemented
+
+
+@ext("numpy.diag", "numpy.diagflat")
+def _diag(I, a, k, e, env, ctx):
+    # diag of a 1-D array builds the diagonal matrix (of a 2-D array it extracts the diagonal: not decided here)
+    if len(a) == 1 and isinstance(a[0], Rat) and not k:
+        return Rat.atom(Fn("diagmat", (a[0],)))
     return NotImplemented
 
 
@@ -2052,7 +2120,7 @@ def _append(I, a, k, e, env, ctx):
 
 
 @ext("numpy.fliplr", "numpy.flipud", "numpy.flip", "numpy.rot90", "numpy.sort",
-     "numpy.cumsum", "numpy.diag", "numpy.tile", "numpy.insert", "numpy.delete", "numpy.digitize",
+     "numpy.cumsum", "numpy.tile", "numpy.insert", "numpy.delete", "numpy.digitize",
      "numpy.bitwise_or", "numpy.interp", "numpy.fill_diagonal", "numpy.outer", "numpy.trace")
 def _named(I, a, k, e, env, ctx):
     nm = norm_text(e.func).split(".")[-1]
